@@ -133,6 +133,8 @@ class Kern:
         if t == "call":
             nm = e[1] if isinstance(e[1], str) else None
             args = [self.ev(a) for a in e[2]]
+            if nm == "F" and len(args) == 1:
+                return args[0]          # flash-string macro
             if nm == "abs" or nm == "fabs":
                 return abs(args[0])
             if nm in ("min", "max"):
